@@ -139,7 +139,7 @@ impl ScheduledSink {
 
 impl Write for ScheduledSink {
 	fn write(&mut self, buf: &[u8]) -> io::Result<usize> {
-		self.plain_calls += 1;
+		self.plain_calls = self.plain_calls.wrapping_add(1);
 		if buf.is_empty() {
 			// not counted against the schedule
 			return Ok(0);
